@@ -70,6 +70,10 @@ pub struct FileWithSyncPersister;
 
 impl Persister for FilePersister {
     async fn append(&self, path: &str, bytes: &[u8]) -> Result<(), IggyError> {
+        #[cfg(feature = "iggy_verif")]
+        if crate::verif::should_fail_append(path) {
+            return Err(IggyError::CannotAppendToFile);
+        }
         let mut file = file::append(path)
             .await
             .with_error_context(|error| {
@@ -128,6 +132,10 @@ impl Persister for FilePersister {
 
 impl Persister for FileWithSyncPersister {
     async fn append(&self, path: &str, bytes: &[u8]) -> Result<(), IggyError> {
+        #[cfg(feature = "iggy_verif")]
+        if crate::verif::should_fail_append(path) {
+            return Err(IggyError::CannotAppendToFile);
+        }
         let mut file = file::append(path)
             .await
             .with_error_context(|error| {
